@@ -149,3 +149,130 @@ class DeltaEncodeSpec(KernelSpec):
 class DoubleDeltaEncodeSpec(DeltaEncodeSpec):
     fn_path = "api::double_delta_encode"
     double = True
+
+
+# ----------------------------------------------------------------------------------------------------
+# the branch chain of Column::serialize_builder for integer columns (capnp builders as recording stubs)
+# ----------------------------------------------------------------------------------------------------
+import re as _re
+from ..mirsym.values import Opaque, UNIT, Havoc
+from ..mirsym.models import seq_of
+
+
+def builder_stubs():
+    def passthru(tag):
+        def f(ex, st, fr, path, args, m):
+            return Opaque(tag)
+        return f
+
+    def init(ex, st, fr, path, args, m):
+        st.env.setdefault("wire", {})["kind"] = m.group(1)
+        return Opaque("builder:" + m.group(1))
+
+    def setter(ex, st, fr, path, args, m):
+        w = st.env.setdefault("wire", {})
+        name = m.group(1)
+        v = args[1]
+        if name in ("data", "i64"):
+            el, lo, hi = seq_of(v)
+            v = list(el[lo:hi])
+            if name == "i64":
+                w["kind"] = "i64"
+            w["data"] = v
+            return Agg("enum", [UNIT], name="Result", variant="Ok")
+        w[name] = v
+        return UNIT
+    return [(_re.compile(r"column::Builder(?:::<.*>)?::(reborrow|init_data)$"), passthru("column builder")),
+            (_re.compile(r"column::Builder(?:::<.*>)?::set_name::<"), lambda ex, st, fr, path, args, m: UNIT),
+            (_re.compile(r"column::data::Builder(?:::<.*>)?::init_(range|delta_encoded_i8|delta_encoded_i16|delta_encoded_i32|double_delta_encoded_i8|double_delta_encoded_i16|double_delta_encoded_i32)$"), init),
+            (_re.compile(r"(?:range|delta_encoded_i\d+|double_delta_encoded_i\d+)::Builder(?:::<.*>)?::set_(start|len|step|first|second|data)(?:::<.*>)?$"), setter),
+            (_re.compile(r"column::data::Builder(?:::<.*>)?::set_(i64)::<"), setter)]
+
+
+def wire_decode(w):
+    """reference semantics of the integer wire representations -> list of I(i64) (None if not an integer representation)"""
+    k = w.get("kind")
+    if k == "i64":
+        return list(w["data"])
+    if k == "range":
+        n = w["len"]
+        if not n.concrete:
+            return None
+        return [binop("Add", w["start"], binop("Mul", I("i64", i), w["step"])) for i in range(n.v)]
+    if k and k.startswith("delta_encoded"):
+        out = [w["first"]]
+        for d in w["data"]:
+            out.append(binop("Add", out[-1], cast_int_(d)))
+        return out
+    if k and k.startswith("double_delta_encoded"):
+        out = [w["first"], w["second"]]
+        delta = binop("Sub", w["second"], w["first"])
+        for d in w["data"]:
+            delta = binop("Add", delta, cast_int_(d))
+            out.append(binop("Add", out[-1], delta))
+        return out
+    return None
+
+
+def cast_int_(x):
+    from ..mirsym.values import cast_int
+    return cast_int(x, "i64")
+
+
+class SerializeIntColumnSpec(KernelSpec):
+    """Column::Int(xs).serialize_builder: whatever representation the branch chain picks (range / delta i8,i16,i32 /
+    double-delta i8,i16,i32 / plain i64) decodes back to xs by the wire format's semantics; the encoders it calls never panic"""
+    method = ("Column", None, "serialize_builder")
+    dumps = ("ser",)
+    diff_cases = 0
+
+    def instantiations(self, tier):
+        return [{"nat": "api_roundtrip_ints"}]
+
+    def shapes(self, tier, inst):
+        return [0, 1, 2, 3] if tier == "quick" else [0, 1, 2, 3, 4]
+
+    def sym_inputs(self, inst, shape):
+        return {"ints": [sym("i64", f"x{i}") for i in range(shape)]}, []
+
+    def explore(self, ctx, ex, fn, inst, shape, inp, pre):
+        ex.stubs = builder_stubs()
+        col = Agg("enum", [VecObj(list(inp["ints"]), "i64")], name="Column", variant="Int")
+        from .routing import str_ref
+        st = ex.start(fn, [Ref(Cell(col)), str_ref([I("u8", 120)]), Ref(Cell(Opaque("column builder")), (), None, False, True)], {}, pc=pre)
+        return ex.explore(st)
+
+    def post(self, inst, shape, inp, value, state=None):
+        if isinstance(value, tuple) and value[0] == "roundtrip":
+            return DeltaStatsSpec.post(self, inst, shape, inp, value, state)
+        w = state.env.get("wire", {})
+        dec = wire_decode(w)
+        conds = [("an integer wire representation is chosen", B(dec is not None))]
+        if dec is None:
+            return conds
+        ints = inp["ints"]
+        if w.get("kind") in ("range",) and len(ints) < 1:
+            return conds + [("range needs a first element", B(False))]
+        conds.append((f"representation '{w.get('kind')}' has one value per row", B(len(dec) == len(ints))))
+        if len(dec) == len(ints):
+            # exactness in Z: the wire arithmetic (i64 additions on the decoding side) must not overflow either
+            from ..mirsym.values import cast_int
+            for i, (d, x) in enumerate(zip(dec, ints)):
+                conds.append((f"value {i} decodes back exactly ({w.get('kind')})", binop("Eq", d, x)))
+            if w.get("kind", "").startswith("double_delta"):
+                s = binop("SubWithOverflow", w["second"], w["first"])
+                conds.append(("double-delta decoding does not overflow in second - first", bnot(s.fields[1])))
+        return conds
+
+    def random_inputs(self, rng, inst, shape):
+        return None
+
+    def native(self, inst, shape, inp):
+        if inp is None:
+            return None
+        return ("api_roundtrip_ints", [fmt_ints(inp["ints"])])
+
+    def parse_native(self, inst, shape, toks):
+        if toks[0] == "err":
+            return ("roundtrip", False, [])
+        return ("roundtrip", True, parse_ints(toks[1], "i64"))
